@@ -149,3 +149,65 @@ fn main() {{}}
 UNITS = [VUnit("c01_scopes", ["C01", "C09", "C16", "C10", "C02", "C03"], "scopes_since_loop: frame count of break/continue", build)]
 UNITS[0].assumes = ["ScopeStack::iter() yields the scopes innermost first (scope.rs ScopeIter; not under contract)",
                     "that the parser pushes one scope per run-time frame (if/else/loop body) is the ScopeHandle discipline, not proved"]
+
+
+# =====================================================================================================================
+# C07 / C10 / C03: which declaration a name denotes, and whether it is a CAPTURED variable -- the lexical lookup every expression, assignment
+# and write form goes through (AssocFileData::get_dependency_flags_from_name*)
+LEX_SPEC = r"""
+// the innermost scope (at or beyond `skip`) that declares the name; captured exactly when a function scope lies between the use and that scope
+pub open spec fn lexical(scopes: Seq<Scope>, name: VStr, i: int, skip: int, crossed: bool) -> Option<(Ident, bool)> decreases scopes.len() - i {
+    if i < 0 || i >= scopes.len() { None }
+    else if i >= skip && declared(scopes[i], name) is Some { Some((declared(scopes[i], name)->Some_0, crossed)) }
+    else { lexical(scopes, name, i + 1, skip, crossed || scopes[i].ty is Function) }
+}
+#[verifier::external_body] pub fn ident_clone(i: &Ident) -> (r: Ident) ensures r == *i { unimplemented!() }
+"""
+
+
+def build_lexical(repo):
+    src = Source(repo)
+    log = []
+    f = src.fn(FILE, "get_dependency_flags_from_name_and_scopes_plus_skip")
+    f_fn = src.fn(SCOPE, "is_function", "impl Scope")
+    b_fn = translate(f_fn["body"], [Rule("R9", "matches ! ( self . ty , $$p )", "( match self . ty { $$p => true , _ => false } )", count=1, why="matches! -> match")], log, "Scope::is_function")
+
+    def loop(b):
+        c, x = text(b["c"]), text(b["x"])
+        return ["let mut verif_k : usize = 0 ; while verif_k < scopes . len ( )",
+                G("""invariant_except_break lexical(scopes@, *dependency, 0, skip as int, false) == lexical(scopes@, *dependency, verif_k as int, skip as int, is_callback),
+invariant verif_k <= scopes@.len(),
+ensures lexical(scopes@, *dependency, 0, skip as int, false) is None,
+decreases scopes@.len() - verif_k,"""),
+                "{", f"let {c} = verif_k ; let {x} = & scopes [ verif_k ] ; verif_k += 1 ;", *b["body"], "}"]
+
+    b = translate(list(f["body"]), [
+        Rule("R2", "for ( $c , $x ) in scopes . enumerate ( ) { $$body }", loop, count=1, why="for over ScopeIter.enumerate() (innermost scope first) -> indexed while"),
+        Rule("R6", "if let ( true , Ok ( flags ) ) = ( $$t , Ref :: filter_map ( Ref :: clone ( & scope ) , | scope | scope . contains ( dependency ) ) , ) { $$body }",
+             "if $$t { if let Some ( flags ) = scope_contains ( scope , dependency ) { let flags = ident_clone ( flags ) ; $$body } }", why="the (flag, Ref::filter_map(..contains..)) tuple test: both parts must hold; Ref<Ident> -> the identifier"),
+    ], log, "get_dependency_flags_from_name_and_scopes_plus_skip")
+    check_closed(b, "get_dependency_flags_from_name_and_scopes_plus_skip")
+    gen = header(log, f"{FILE}: AssocFileData::get_dependency_flags_from_name_and_scopes_plus_skip; {SCOPE}: Scope::is_function") + SPEC + LEX_SPEC + f"""
+impl Scope {{
+    pub fn is_function(&self) -> (r: bool) ensures r == (self.ty is Function)
+    {{
+{render(b_fn, 2)}
+    }}
+}}
+//@ OBL C07.lookup.lexical
+// the declaration a name denotes where it is used: the innermost enclosing scope that declares it (from `skip` scopes out), through function
+// boundaries too -- and it is a captured variable exactly when at least one function boundary lies in between
+pub fn get_dependency_flags_from_name_and_scopes_plus_skip(scopes: &Vec<Scope>, dependency: &VStr, skip: usize) -> (r: Option<(Ident, bool)>)
+    ensures r == lexical(scopes@, *dependency, 0, skip as int, false),
+{{
+{render(b, 1)}
+}}
+}} // verus!
+fn main() {{}}
+"""
+    return gen, [Obl("C07.lookup.lexical", ["C07", "C10", "C03", "C02"], fn="AssocFileData::get_dependency_flags_from_name_and_scopes_plus_skip",
+                     desc="name resolution at compile time: the innermost enclosing declaration, searched outwards through function boundaries; captured exactly when a function boundary is crossed")], log
+
+
+UNITS.append(VUnit("c07_lexical_lookup", ["C07", "C10", "C03", "C02"], "compile-time name resolution: innermost declaration; captured iff a function boundary is crossed", build_lexical))
+UNITS[-1].assumes = UNITS[0].assumes
